@@ -69,7 +69,7 @@ class Add(IMerger):
   def __init__(self, input_qe_list):
     super().__init__(input_qe_list)
 
-    max_bits = -1
+    max_frac_bits = 0
     max_int_bits = -1
     is_signed = False
 
@@ -86,8 +86,12 @@ class Add(IMerger):
         else:
           qbits_quantizer = quantizer
 
-        if qbits_quantizer.bits > max_bits:
-          max_bits = qbits_quantizer.bits
+        # fractional and integer widths are tracked separately so that
+        # neither the finest step nor the widest range is lost
+        frac_bits = (qbits_quantizer.bits - qbits_quantizer.int_bits -
+                     int(qbits_quantizer.is_signed))
+        if frac_bits > max_frac_bits:
+          max_frac_bits = frac_bits
 
         if qbits_quantizer.int_bits > max_int_bits:
           max_int_bits = qbits_quantizer.int_bits
@@ -99,8 +103,9 @@ class Add(IMerger):
           bits=bits)
     else:
       self.output = quantizer_impl.QuantizedBits()
-      self.output.bits = max_bits + 1
       self.output.int_bits = max_int_bits + 1
+      self.output.bits = (
+          self.output.int_bits + int(is_signed) + max_frac_bits)
       self.output.is_signed = is_signed
       self.output.mode = 0
       self.output.is_floating_point = False
@@ -163,7 +168,7 @@ class Maximum(IMerger):
     if is_same:
       self.output = quantizer
     else:
-      max_bits = -1
+      max_frac_bits = 0
       max_int_bits = -1
       is_signed = False
       for quantizer in self.input_quantizers:
@@ -177,8 +182,12 @@ class Maximum(IMerger):
           else:
             qbits_quantizer = quantizer
 
-          if qbits_quantizer.bits > max_bits:
-            max_bits = qbits_quantizer.bits
+          # fractional and integer widths are tracked separately so that
+          # every input value stays representable
+          frac_bits = (qbits_quantizer.bits - qbits_quantizer.int_bits -
+                       int(qbits_quantizer.is_signed))
+          if frac_bits > max_frac_bits:
+            max_frac_bits = frac_bits
 
           if qbits_quantizer.int_bits > max_int_bits:
             max_int_bits = qbits_quantizer.int_bits
@@ -190,8 +199,8 @@ class Maximum(IMerger):
             bits=bits)
       else:
         self.output = quantizer_impl.QuantizedBits()
-        self.output.bits = max_bits
         self.output.int_bits = max_int_bits
+        self.output.bits = max_int_bits + int(is_signed) + max_frac_bits
         self.output.is_signed = is_signed
         self.output.mode = 0
         self.output.is_floating_point = False
